@@ -14,6 +14,8 @@ import (
 	"math/rand"
 	"os"
 	"runtime"
+	"slices"
+	"sort"
 	"strconv"
 	"strings"
 	"sync"
@@ -348,6 +350,94 @@ func kaOtherClientSession(ctx context.Context, cl *Client, busy []kaBusy, pk *ka
 	return func() { cs.Close(); ss.Close() }, nil
 }
 
+// Starvation watch (busy cases). A keep-alive goroutine that waits for Server.mu / Client.mu while another session's
+// handler is parked holding it stops the bubble: every goroutine is blocked, the one on the sync.Mutex not durably, so
+// virtual time cannot advance and nothing inside the bubble can report it. kaStarveLoop (a goroutine OUTSIDE every
+// bubble, real time) looks at the running busy case every 100 ms: when two goroutine dumps 150 ms apart show no
+// goroutine of a bubble running or runnable and the same goroutine(s) blocked on a sync.Mutex with the innermost
+// non-runtime frame in SDK code, it writes the case's record with what was observed so far —
+//   pings=<pings the peer received> to=- close=- exit=1 late=0 starved=<state>:<func>@<file:line>[;…]
+// — flushes and ends the process (the stalled bubble cannot be resumed); the records written so far are evaluated
+// as usual. The typed clause is KeepAlive.Clause2.starved (Starve.lean).
+var kaCur struct {
+	mu    sync.Mutex
+	id    string
+	c     *kaCase
+	peer  *kaPeer
+	start int64
+}
+
+func kaBubbleIdle() bool {
+	buf := make([]byte, 8<<20)
+	buf = buf[:runtime.Stack(buf, true)]
+	for _, g := range strings.Split(string(buf), "\n\n") {
+		hdr, _, _ := strings.Cut(g, "\n")
+		if !strings.Contains(hdr, "synctest bubble") {
+			continue
+		}
+		if strings.Contains(hdr, "[running") || strings.Contains(hdr, "[runnable") || strings.Contains(hdr, "[syscall") {
+			return false
+		}
+	}
+	return true
+}
+
+func kaMutexBlocked() map[string]string {
+	res := map[string]string{}
+	for g, w := range verifBlocked() {
+		if strings.HasPrefix(w, "sync.Mutex.Lock:") || strings.HasPrefix(w, "sync.RWMutex") {
+			res[g] = w
+		}
+	}
+	return res
+}
+
+func kaStarveLoop(out *verifOut) {
+	for !out.closed.Load() {
+		time.Sleep(100 * time.Millisecond)
+		kaCur.mu.Lock()
+		id, c := kaCur.id, kaCur.c
+		kaCur.mu.Unlock()
+		if c == nil || len(c.busy) == 0 || !kaBubbleIdle() {
+			continue
+		}
+		a := kaMutexBlocked()
+		if len(a) == 0 {
+			continue
+		}
+		time.Sleep(150 * time.Millisecond)
+		kaCur.mu.Lock()
+		same := kaCur.id == id
+		peer, start := kaCur.peer, kaCur.start
+		kaCur.mu.Unlock()
+		if !same || peer == nil || !kaBubbleIdle() {
+			continue
+		}
+		b := kaMutexBlocked()
+		var frames []string
+		for g, w := range a {
+			if b[g] == w {
+				frames = append(frames, w)
+			}
+		}
+		if len(frames) == 0 || len(frames) != len(b) {
+			continue
+		}
+		sort.Strings(frames)
+		frames = slices.Compact(frames)
+		peer.mu.Lock()
+		pings := make([]int64, len(peer.pings))
+		for i, v := range peer.pings {
+			pings[i] = v - start
+		}
+		peer.mu.Unlock()
+		obs := fmt.Sprintf("pings=%s to=- close=- exit=1 late=0 starved=%s", kaInts(pings), strings.Join(frames, ";"))
+		out.line(id, c.op(), obs, append(kaTags(c, obs), "starved")...)
+		out.flush()
+		os.Exit(0)
+	}
+}
+
 var kaLogger = slog.New(slog.DiscardHandler)
 
 // kaSess is the scripted keepaliveSession.
@@ -663,6 +753,9 @@ func kaRunReal(t *testing.T, c *kaCase) (obs string) {
 			}
 		}
 		start := time.Since(peer.t0).Nanoseconds() // the handshakes take no virtual time
+		kaCur.mu.Lock()
+		kaCur.peer, kaCur.start = peer, start
+		kaCur.mu.Unlock()
 		var mu sync.Mutex
 		closedAt := int64(-1)
 		go func() {
@@ -903,11 +996,15 @@ func kaRandom(rng *rand.Rand, maxLen, maxT int, real string) *kaCase {
 func TestVerifKeepAlive(t *testing.T) {
 	out := verifOpen(t)
 	defer out.close()
+	go kaStarveLoop(out)
 	n := 0
 	emit := func(prefix string, c *kaCase) {
 		id := fmt.Sprintf("%s%d", prefix, n)
 		leaked := false
 		out.begin(id, c.op)
+		kaCur.mu.Lock()
+		kaCur.id, kaCur.c, kaCur.peer = id, c, nil
+		kaCur.mu.Unlock()
 		obs := kaRun(t, c, func(obs string) {
 			leaked = true
 			out.line(id, c.op(), obs, kaTags(c, obs)...)
@@ -1023,7 +1120,7 @@ func TestVerifKeepAlive(t *testing.T) {
 			}
 		}
 	}
-	nbusy := verifN(150, 2000)
+	nbusy := verifN(150, 1200)
 	for i := 0; i < nbusy; i++ {
 		c := kaRandom(rng, 8, 4, []string{"server", "client"}[i%2])
 		kinds := kaBusyKinds[c.real]
